@@ -333,6 +333,7 @@ func (rc *raftNode) replayWAL(snapshot *raftpb.Snapshot, forceStandalone bool) e
 	} else {
 		atomic.StoreInt32(&rc.replayRunning, 0)
 	}
+	verifCrashPoint("rc.replay.after", uint64(len(ents)), rc.lastIndex, st.Commit)
 	rc.Infof("replaying WAL (%v) at lastIndex : %v", len(ents), rc.lastIndex)
 	return nil
 }
@@ -384,11 +385,13 @@ func (rc *raftNode) startRaft(ds DataStorage, standalone bool) error {
 		}
 		if err == snap.ErrNoSnapshot || raft.IsEmptySnap(*snapshot) {
 			rc.Infof("loading no snapshot \n")
+			verifCrashPoint("rc.snap.none")
 			rc.ds.CleanData()
 		} else {
 			rc.Infof("loading snapshot at term %d and index %d, snap: %v",
 				snapshot.Metadata.Term,
 				snapshot.Metadata.Index, snapshot.Metadata.ConfState)
+			verifCrashPoint("rc.snap.chosen", snapshot.Metadata.Term, snapshot.Metadata.Index)
 			// update the latest snapshot index for statemachine
 			rc.ds.UpdateSnapshotState(snapshot.Metadata.Term, snapshot.Metadata.Index)
 			err := rc.ds.PrepareSnapshot(*snapshot)
@@ -397,6 +400,7 @@ func (rc *raftNode) startRaft(ds DataStorage, standalone bool) error {
 					rc.Errorf("failed to restore from snapshot: %s", err)
 					return err
 				}
+				verifCrashPoint("rc.restore.after", snapshot.Metadata.Term, snapshot.Metadata.Index)
 			} else if err == errNobackupAvailable {
 				if common.IsConfSetted(common.ConfIgnoreStartupNoBackup) {
 					rc.Infof("ignore failed at startup for no any backup from anyware")
@@ -675,6 +679,7 @@ func (rc *raftNode) beginSnapshot(snapTerm uint64, snapi uint64, confState raftp
 	if err != nil {
 		return err
 	}
+	verifCrashPoint("sn.ckpt.started", snapTerm, snapi)
 	rc.Infof("get snapshot object done: %v, state: %v", snapi, confState.String())
 
 	rc.wgAsync.Add(1)
@@ -685,6 +690,7 @@ func (rc *raftNode) beginSnapshot(snapTerm uint64, snapi uint64, confState raftp
 			rc.Errorf("get snapshot data at index %d failed: %v", snapi, err)
 			return
 		}
+		verifCrashPoint("sn.ckpt.done", snapTerm, snapi)
 		rc.Infof("snapshot data : %v\n", string(data))
 		rc.Infof("create snapshot with conf : %v\n", confState)
 		// now we can do the actually snapshot for copy
@@ -696,23 +702,28 @@ func (rc *raftNode) beginSnapshot(snapTerm uint64, snapi uint64, confState raftp
 			rc.Errorf("create snapshot at index %d failed: %v", snapi, err)
 			return
 		}
+		verifCrashPoint("sn.create.after", snapTerm, snapi)
 		// SaveSnap saves the snapshot to file and appends the corresponding WAL entry.
 		if err := rc.persistStorage.SaveSnap(snap); err != nil {
 			rc.Errorf("save snapshot at index %v failed: %v", snap.Metadata, err)
 			return
 		}
+		verifCrashPoint("sn.savesnap.after", snapTerm, snapi)
 		err = rc.persistStorage.Sync()
 		if err != nil {
 			rc.Errorf("failed to sync wal: %s", err)
 			return
 		}
+		verifCrashPoint("sn.sync.after", snapTerm, snapi)
 		if err = rc.persistStorage.Release(snap); err != nil {
 			rc.Errorf("failed to release wal: %s", err)
 			return
 		}
+		verifCrashPoint("sn.release.after", snapTerm, snapi)
 		// update the latest snapshot index for statemachine
 		rc.ds.UpdateSnapshotState(snap.Metadata.Term, snap.Metadata.Index)
 
+		verifCrashPoint("sn.updstate.after", snapTerm, snapi)
 		compactIndex := uint64(1)
 		if snapi > uint64(rc.config.SnapCatchup) {
 			compactIndex = snapi - uint64(rc.config.SnapCatchup)
@@ -725,6 +736,7 @@ func (rc *raftNode) beginSnapshot(snapTerm uint64, snapi uint64, confState raftp
 			rc.Errorf("compact log at index %v failed: %v", compactIndex, err)
 			return
 		}
+		verifCrashPoint("sn.compact.after", snapi, compactIndex)
 		rc.Infof("compacted log at index %d", compactIndex)
 	}()
 	return nil
@@ -947,6 +959,7 @@ func (rc *raftNode) serveChannels() {
 }
 
 func (rc *raftNode) processReady(rd raft.Ready) {
+	verifCrashPoint("rd.begin", verifReady(&rd)...)
 	isMeNewLeader := false
 	if rd.SoftState != nil {
 		isMeNewLeader = (rd.RaftState == raft.StateLeader)
@@ -1021,6 +1034,7 @@ func (rc *raftNode) processReady(rd raft.Ready) {
 			newPublished = rd.CommittedEntries[len(rd.CommittedEntries)-1].Index
 		}
 		rc.lastPublished = newPublished
+		verifCrashPoint("rd.publish.before", uint64(len(rd.CommittedEntries)), newPublished, rd.Snapshot.Metadata.Index)
 		rc.publishEntries(rd.CommittedEntries, rd.Snapshot, applySnapshotTransferResult, raftDone, applyWaitDone)
 	}
 	if !raft.IsEmptySnap(rd.Snapshot) {
@@ -1080,7 +1094,9 @@ func (rc *raftNode) processReady(rd raft.Ready) {
 			return
 		}
 		raftDone <- struct{}{}
+		verifCrashPoint("rd.applysnap.before", rd.Snapshot.Metadata.Term, rd.Snapshot.Metadata.Index)
 		rc.raftStorage.ApplySnapshot(rd.Snapshot)
+		verifCrashPoint("rd.applysnap.after", rd.Snapshot.Metadata.Term, rd.Snapshot.Metadata.Index)
 		rc.Infof("raft applied incoming snapshot done: %v", rd.Snapshot.String())
 		if rd.Snapshot.Metadata.Index >= rc.lastIndex {
 			if !rc.IsReplayFinished() {
@@ -1091,10 +1107,12 @@ func (rc *raftNode) processReady(rd raft.Ready) {
 		if err := rc.persistStorage.Release(rd.Snapshot); err != nil {
 			rc.Errorf("failed to release Raft wal: %s", err)
 		}
+		verifCrashPoint("rd.release.after", rd.Snapshot.Metadata.Term, rd.Snapshot.Metadata.Index)
 	}
 	cost2 := time.Since(start)
 	rc.raftStorage.Append(rd.Entries)
 	cost3 := time.Since(start) - cost2
+	verifCrashPoint("rd.append.after", uint64(len(rd.Entries)))
 	if cost3 > raftSlow/2 {
 		rc.Infof("raft append commit entries slow: %v, cost: %v", len(rd.Entries), cost3)
 	}
@@ -1131,6 +1149,7 @@ func (rc *raftNode) processReady(rd raft.Ready) {
 	} else {
 		raftDone <- struct{}{}
 	}
+	verifCrashPoint("rd.advance.before")
 	rc.node.Advance(rd)
 }
 
@@ -1139,19 +1158,23 @@ func (rc *raftNode) persistRaftState(rd *raft.Ready) error {
 	// Must save the snapshot file and WAL snapshot entry before saving any other entries or hardstate to
 	// ensure that recovery after a snapshot restore is possible.
 	if !raft.IsEmptySnap(rd.Snapshot) {
+		verifCrashPoint("rd.savesnap.before", rd.Snapshot.Metadata.Term, rd.Snapshot.Metadata.Index)
 		err := rc.persistStorage.SaveSnap(rd.Snapshot)
 		if err != nil {
 			rc.Errorf("raft save snap error: %v", err)
 			return err
 		}
+		verifCrashPoint("rd.savesnap.after", rd.Snapshot.Metadata.Term, rd.Snapshot.Metadata.Index)
 		rc.Infof("raft persist snapshot meta done : %v", rd.Snapshot.String())
 		// update the latest snapshot index for statemachine
 		rc.ds.UpdateSnapshotState(rd.Snapshot.Metadata.Term, rd.Snapshot.Metadata.Index)
 	}
+	verifCrashPoint("rd.walsave.before", uint64(len(rd.Entries)), rd.HardState.Term, rd.HardState.Vote, rd.HardState.Commit)
 	if err := rc.persistStorage.Save(rd.HardState, rd.Entries); err != nil {
 		rc.Errorf("raft save wal error: %v", err)
 		return err
 	}
+	verifCrashPoint("rd.walsave.after", uint64(len(rd.Entries)), rd.HardState.Commit)
 	return nil
 }
 
